@@ -58,6 +58,9 @@ def main():
     if not demo_target or not demo_cmd:
         print("cannot parse demo.md: target=%s cmd=%s" % (demo_target, demo_cmd))
         sys.exit(2)
+    if demo_cmd:
+        # a pipe into grep/tail would hide the exit status of go test
+        demo_cmd = re.split(r"\s+2>&1\s*\||\s+\|\s+", demo_cmd)[0].strip()
     if "-timeout" not in demo_cmd:
         demo_cmd = demo_cmd.replace("go test", "go test -timeout 20m", 1)
     res = dict(confirmed_at_repo_head=head)
